@@ -348,6 +348,32 @@ def run(ctx):
                         else:
                             nxt.append((bi, si, d))
                     ret_defs = nxt
+                if not any(d[0] == "assign" and d[1]["k"] == "use" and mir.op_const(d[1]["op"]) is True
+                           for (_, _, d) in ret_defs):
+                    # `let accepted = <gate>; if accepted { insert }; accepted`: the returned bool is the very flag the
+                    # insertion is switched on
+                    flag = None
+                    for (bi, si, d) in cg_.d.whole.get(0, []):
+                        pl = mir.op_place(d[1]["op"]) if d[0] == "assign" and d[1]["k"] == "use" else None
+                        if pl is not None and not pl["proj"]:
+                            flag = cg_._copy_root(pl["l"])
+                    gcfg = mir.cfg(g)
+                    okf = False
+                    if flag is not None:
+                        for bj, tj in mir.iter_terms(g, "switch"):
+                            pj = mir.op_place(tj["discr"])
+                            if pj is None or pj["proj"] or cg_._copy_root(pj["l"]) != flag:
+                                continue
+                            true_t = tj["otherwise"] if 0 in [v for v, _ in tj["targets"]] else None
+                            if true_t is not None and any(gcfg.dominates(true_t, s[0]) or true_t == s[0] for s in sites):
+                                okf = True
+                    if okf:
+                        rep.ok("NI-4", g.key, "returns true only after insertion", detail="returns the flag the insertion is "
+                               "switched on", where=g.loc())
+                    else:
+                        rep.violation("NI-4", g.key, "returns true only after insertion",
+                                      "register_announce_message returns a computed bool that is not the condition its insertion "
+                                      "is switched on", where=g.loc())
                 for (bi, si, d) in ret_defs:
                     if d[0] == "assign" and d[1]["k"] == "use" and mir.op_const(d[1]["op"]) is True:
                         eff_blocks = {s[0] for s in sites}
